@@ -586,8 +586,13 @@ prop("C10",
          "verify_distributed_partition are in addition proved for symbolic "
          "ranks and tags."),
      level_note=(
-         "Pairs of faults are not enumerated. 'On the affected ranks' is read "
-         "as 'on some rank' (verify raises on rank 0 only, by design)."),
+         "Pairs of faults: all pairs on six program shapes in the thorough "
+         "tier, every 9th in the quick tier; for a pair the rank owning a "
+         "faulty endpoint must not return a partition (it raises, or is left "
+         "waiting in a collective because the other owner already raised); "
+         "pairs that cancel must be accepted with a sound partition or be "
+         "rejected as cyclic. 'On the affected ranks' is read as: the rank "
+         "owning the missing or surplus endpoint raises."),
      technique="contract-based: postcondition checked on the real code "
                "interpreted over enumerated single faults; deductive "
                "sub-contracts (z3) for symbolic ranks/tags",
